@@ -613,6 +613,70 @@ def memo_search(rel, qual, budget=700):
                             "expected": f"the result of the same call in a fresh process: {json.dumps(b)[:300]}", "observed": json.dumps(g2)[:300],
                             "search": "memo differential: f(y) after f(x) vs f(y) in a forked pristine process"}
         # and the other direction: x after each y is covered when y becomes x for the two `other` bases above
+    return transient_search(f, cands, base, show, rel, qual)
+
+
+def fresh_copy(v):
+    """An equal object at a new address (for the types whose instances live on the heap)."""
+    if isinstance(v, bytes):
+        return bytes(memoryview(v)) if v else v
+    if isinstance(v, bytearray):
+        return bytearray(v)
+    if isinstance(v, str):
+        return (v + " ")[:-1] if len(v) > 1 else v
+    if isinstance(v, list):
+        return [fresh_copy(e) for e in v]
+    if isinstance(v, tuple):
+        return tuple(fresh_copy(e) for e in v)
+    return v
+
+
+def transient_search(f, cands, base, show, rel, qual, cap=40):
+    """Arguments that DIE between the two calls: f(x) with x dropped afterwards, then f(y) with every argument of y allocated at the
+    address the corresponding argument of x had (CPython hands a freed block to the next object of its size class) -- finds memo keys
+    built from object identity (`id(arg)`, `hash` of an identity-hashed object) that do not keep the object alive.  The pools above
+    keep every candidate alive, so no two of their objects ever share an address."""
+    def sig(t):
+        return tuple((type(v).__name__, len(v)) if hasattr(v, "__len__") else (type(v).__name__, None) for v in t)
+    groups = {}
+    for y, b in zip(cands, base):
+        if b is not None and any(isinstance(v, (bytes, bytearray, str, list, tuple)) and len(v) > 1 for v in y):
+            groups.setdefault(sig(y), []).append((y, b))
+    pairs = []
+    for g in sorted(groups.values(), key=lambda g_: -len(g_)):
+        picks = [(0, 1), (1, 0), (0, len(g) - 1)] if len(g) > 1 else []
+        for (i, j) in picks:
+            if i != j and g[i][1] != g[j][1] and (g[i][0], g[j][0], g[j][1]) not in pairs:
+                pairs.append((g[i][0], g[j][0], g[j][1]))
+    for (x, y, b) in pairs[:cap]:
+        def run(x=x, y=y):
+            xs = [fresh_copy(v) for v in x]
+            ids = [id(v) for v in xs]
+            outcome(f, *xs)
+            del xs
+            ys, reused = [], 0
+            for i, v in enumerate(y):
+                keep, got = [], None
+                for _ in range(64):
+                    c = fresh_copy(v)
+                    if id(c) == ids[i] and c is not v:
+                        got = c
+                        break
+                    keep.append(c)
+                reused += got is not None
+                ys.append(got if got is not None else fresh_copy(v))
+                del keep
+            return [outcome(f, *ys), reused]
+        got = forked(run).get("ok")
+        if got and got[1] and got[0] != b:
+            again = forked(run).get("ok")
+            if again and again[0] != b:
+                return {"reproduced": True, "target": f"{rel}::{qual}",
+                        "inputs": {"history": [show(x)], "call": show(y),
+                                   "lifetime": "the arguments of the earlier call are garbage before the later call; the later arguments are new objects "
+                                               f"that the allocator placed at the earlier arguments' addresses ({got[1]} of {len(y)})"},
+                        "expected": f"the result of the same call in a fresh process: {json.dumps(b)[:300]}", "observed": json.dumps(again[0])[:300],
+                        "search": "memo differential with transient arguments: f(x); del x; f(y) with id(y) == the former id(x), vs f(y) in a forked pristine process"}
     return None
 
 
